@@ -2652,10 +2652,10 @@ impl CommandParser {
         if frames.len() < 4 || frames.len() > 5 {
             return Err(FerrousError::Command(CommandError::WrongNumberOfArguments("ZRANGEBYSCORE".into())));
         }
-        let min_score = Self::extract_string(&frames[2])?.parse::<f64>()
-            .map_err(|_| FerrousError::Command(CommandError::InvalidFloatValue))?;
-        let max_score = Self::extract_string(&frames[3])?.parse::<f64>()
-            .map_err(|_| FerrousError::Command(CommandError::InvalidFloatValue))?;
+        let min_score = Self::extract_string(&frames[2])?.parse::<f64>().ok().filter(|n| !n.is_nan())
+            .ok_or(FerrousError::Command(CommandError::InvalidFloatValue))?;
+        let max_score = Self::extract_string(&frames[3])?.parse::<f64>().ok().filter(|n| !n.is_nan())
+            .ok_or(FerrousError::Command(CommandError::InvalidFloatValue))?;
         let with_scores = frames.len() == 5 && 
             Self::extract_string(&frames[4])?.to_uppercase() == "WITHSCORES";
         if frames.len() == 5 && !with_scores {
@@ -2673,10 +2673,10 @@ impl CommandParser {
         if frames.len() != 4 {
             return Err(FerrousError::Command(CommandError::WrongNumberOfArguments("ZCOUNT".into())));
         }
-        let min_score = Self::extract_string(&frames[2])?.parse::<f64>()
-            .map_err(|_| FerrousError::Command(CommandError::InvalidFloatValue))?;
-        let max_score = Self::extract_string(&frames[3])?.parse::<f64>()
-            .map_err(|_| FerrousError::Command(CommandError::InvalidFloatValue))?;
+        let min_score = Self::extract_string(&frames[2])?.parse::<f64>().ok().filter(|n| !n.is_nan())
+            .ok_or(FerrousError::Command(CommandError::InvalidFloatValue))?;
+        let max_score = Self::extract_string(&frames[3])?.parse::<f64>().ok().filter(|n| !n.is_nan())
+            .ok_or(FerrousError::Command(CommandError::InvalidFloatValue))?;
         Ok(SortedSetCommand::ZCount {
             key: Self::extract_bytes(&frames[1])?,
             min_score,
@@ -2788,10 +2788,10 @@ impl CommandParser {
         if frames.len() < 4 || frames.len() > 5 {
             return Err(FerrousError::Command(CommandError::WrongNumberOfArguments("ZREVRANGEBYSCORE".into())));
         }
-        let max_score = Self::extract_string(&frames[2])?.parse::<f64>()
-            .map_err(|_| FerrousError::Command(CommandError::InvalidFloatValue))?;
-        let min_score = Self::extract_string(&frames[3])?.parse::<f64>()
-            .map_err(|_| FerrousError::Command(CommandError::InvalidFloatValue))?;
+        let max_score = Self::extract_string(&frames[2])?.parse::<f64>().ok().filter(|n| !n.is_nan())
+            .ok_or(FerrousError::Command(CommandError::InvalidFloatValue))?;
+        let min_score = Self::extract_string(&frames[3])?.parse::<f64>().ok().filter(|n| !n.is_nan())
+            .ok_or(FerrousError::Command(CommandError::InvalidFloatValue))?;
         let with_scores = frames.len() == 5 && 
             Self::extract_string(&frames[4])?.to_uppercase() == "WITHSCORES";
         if frames.len() == 5 && !with_scores {
@@ -2856,10 +2856,10 @@ impl CommandParser {
         if frames.len() != 4 {
             return Err(FerrousError::Command(CommandError::WrongNumberOfArguments("ZREMRANGEBYSCORE".into())));
         }
-        let min_score = Self::extract_string(&frames[2])?.parse::<f64>()
-            .map_err(|_| FerrousError::Command(CommandError::InvalidFloatValue))?;
-        let max_score = Self::extract_string(&frames[3])?.parse::<f64>()
-            .map_err(|_| FerrousError::Command(CommandError::InvalidFloatValue))?;
+        let min_score = Self::extract_string(&frames[2])?.parse::<f64>().ok().filter(|n| !n.is_nan())
+            .ok_or(FerrousError::Command(CommandError::InvalidFloatValue))?;
+        let max_score = Self::extract_string(&frames[3])?.parse::<f64>().ok().filter(|n| !n.is_nan())
+            .ok_or(FerrousError::Command(CommandError::InvalidFloatValue))?;
         Ok(SortedSetCommand::ZRemRangeByScore {
             key: Self::extract_bytes(&frames[1])?,
             min_score,
